@@ -189,10 +189,28 @@ func (s *Scenario) writeScripts(dir string) {
 	}
 }
 
-func (s *Scenario) coqSpecs() string {
+// coqSpecs describes the tree to the model. A process's life is counted from the start of the call: its own life plus the
+// time at which it had finished its set-up (its ready file), so that a slow start of a shell under load does not look like a
+// process outliving its life. (A life of 30 s stays what it is: it never ends within a scenario.)
+func (s *Scenario) coqSpecs(readyMs []int64) string {
+	end := make([]int64, len(s.Procs))
+	for i, p := range s.Procs {
+		end[i] = int64(p.LifeMs)
+		if i < len(readyMs) && p.LifeMs < 30000 && readyMs[i] > 0 {
+			end[i] += readyMs[i]
+		}
+	}
+	if s.MainWait {
+		end[0] = 0
+		for i := 1; i < len(s.Procs); i++ {
+			if s.Procs[i].Parent == 0 {
+				end[0] = max(end[0], end[i])
+			}
+		}
+	}
 	items := make([]string, len(s.Procs))
 	for i, p := range s.Procs {
-		items[i] = lib.App("mkSpec", lib.Nat(p.Parent), lib.Bool(p.Ign), lib.Bool(p.Detached), lib.Bool(p.Setsid || p.Pgrp), lib.N(uint64(p.LifeMs)))
+		items[i] = lib.App("mkSpec", lib.Nat(p.Parent), lib.Bool(p.Ign), lib.Bool(p.Detached), lib.Bool(p.Setsid || p.Pgrp), lib.N(uint64(end[i])))
 	}
 	return lib.List(items)
 }
@@ -340,10 +358,11 @@ type Result struct {
 	SetupLate bool       `json:"setup_late"`
 	// the executor had not returned when the watchdog gave up (ElapsedMs is then the time the watchdog waited); the
 	// harness then killed every process of the action to get the call back
-	NotReported bool   `json:"not_reported"`
-	LostMs      int64  `json:"machine_stall_ms"` // time the canary lost while the call ran
-	Panic       string `json:"panic,omitempty"`
-	MainPid     int    `json:"-"`
+	NotReported bool    `json:"not_reported"`
+	LostMs      int64   `json:"machine_stall_ms"` // time the canary lost while the call ran
+	ReadyMs     []int64 `json:"ready_ms"`         // per process: when it had finished its set-up, from the start of the call
+	Panic       string  `json:"panic,omitempty"`
+	MainPid     int     `json:"-"`
 }
 
 var mySid, myPgid int
@@ -517,12 +536,19 @@ func runScenario(s *Scenario, base string) Result {
 	}
 	deadline := t1.Add(100 * time.Millisecond)
 	hard := t1.Add(2 * time.Second)
+	empties := 0
 	for {
 		found = scan(mark)
 		r.ScanMs = time.Since(t0).Milliseconds()
 		if len(found) == 0 {
-			break
+			// a process in the middle of an execve shows an empty environ: nothing there counts only when seen twice
+			if empties++; empties >= 2 {
+				break
+			}
+			time.Sleep(15 * time.Millisecond)
+			continue
 		}
+		empties = 0
 		now := time.Now()
 		if now.After(hard) {
 			break
@@ -572,6 +598,11 @@ func runScenario(s *Scenario, base string) Result {
 		fi, err := os.Stat(filepath.Join(dir, fmt.Sprintf("ready_%d", i)))
 		if err != nil || !fi.ModTime().Before(cutoff) {
 			r.SetupLate = true
+		}
+		if err == nil {
+			r.ReadyMs = append(r.ReadyMs, max(fi.ModTime().Sub(t0).Milliseconds(), 0))
+		} else {
+			r.ReadyMs = append(r.ReadyMs, 0)
 		}
 	}
 	// leave nothing behind
@@ -920,7 +951,7 @@ func main() {
 			for k, sg := range r.Sigs {
 				sigs[k] = uint64(sg)
 			}
-			c.Case(lib.App("Case", s.coqMode(), s.coqSpecs(), lib.N(uint64(s.TimeoutMs)), lib.Bool(r.TimedOut), lib.NList(sigs),
+			c.Case(lib.App("Case", s.coqMode(), s.coqSpecs(r.ReadyMs), lib.N(uint64(s.TimeoutMs)), lib.Bool(r.TimedOut), lib.NList(sigs),
 				lib.N(uint64(r.TTermMs)), lib.N(uint64(r.Gap1Ms)), lib.N(uint64(r.Gap2Ms)), lib.N(uint64(r.ElapsedMs)), lib.N(uint64(r.ScanMs)),
 				lib.N(uint64(len(r.InSess))), lib.N(uint64(len(r.OutSess)))), js, s.key(), nontrivial)
 		}
